@@ -13,7 +13,7 @@ from pathlib import Path
 
 from .. import tlc
 from ..common import Outcome, Violation, WORK, NPROC, pool_map
-from ..design import I, R, Sig, Slc, Cat, Pref, Nc, Bund, Anon, proj_package
+from ..design import I, R, Sig, Slc, Cat, Pref, Nc, Bund, Anon, AnonDict, proj_package
 from .. import universe as U
 from . import conn
 
@@ -29,6 +29,7 @@ def term_of(port, label, ncid):
     inst, pn = port.split(".")
     return {"s": Sig("s"), "t": Sig("t"), "bus0": Slc(Sig("bus"), I(0)), "cat": Cat(Slc(Sig("bus"), I(1))),
             "nc": Nc(ncid), "b": Bund("b"), "c": Bund("c"), "anon": Anon(x=Sig("s"), y=Sig("v2")),
+            "dict": AnonDict(x=Sig("t"), y=Sig("v2")),
             "pref": Pref(other(inst), pn)}[label]
 
 
@@ -82,6 +83,8 @@ def replay(args):
             return ns["c"]
         if label == "anon":
             return h.AnonymousBundle(x=ns["s"], y=ns["v2"])
+        if label == "dict":
+            return {"x": ns["t"], "y": ns["v2"]}          # dict shorthand: the library wraps it in an AnonymousBundle
         if label == "pref":
             return getattr(insts[other(inst)], pn)
         raise ValueError(label)
@@ -93,10 +96,14 @@ def replay(args):
         try:
             if o["op"] in ("connect", "replace"):
                 v = make(o["port"], o["val"])
-                keep.append(v)
-                if id(v) not in vids:
-                    vids[id(v)] = f"v{len(vids) + 1}_{o['val']}"
-                ev["vid"] = vids[id(v)]
+                isdict = isinstance(v, dict)
+                if not isdict:
+                    keep.append(v)
+                    if id(v) not in vids:
+                        vids[id(v)] = f"v{len(vids) + 1}_{o['val']}"
+                    ev["vid"] = vids[id(v)]
+                else:
+                    ev["vid"] = f"v{len(vids) + 1}_dict"
                 if o["op"] == "replace":
                     io.replace(pn, v)
                 else:
@@ -107,6 +114,12 @@ def replay(args):
                         setattr(io, pn, v)
                     else:
                         io.connect(pn, v)
+                if isdict:
+                    # the connected object is the AnonymousBundle the library made from the dict: identify it by what is now connected
+                    made = io.conns.get(pn)
+                    if made is not None and id(made) not in vids:
+                        keep.append(made)
+                        vids[id(made)] = ev["vid"]
             elif o["op"] == "disconnect":
                 io.disconnect(pn)
             elif o["op"] == "read":
@@ -200,7 +213,7 @@ def run(tier, seed, replay_file=None):
         elif c2s in ("leaf_table", "observables", "partition"):
             o.violations.append(Violation(clause="final:" + c2s, case=case, features=fs, detail={"P": finals[i]["P"]} if len(o.violations) < 20 else None))
     o.distinct_nontrivial = nt
-    vals = ["s", "bus0", "cat", "pref", "nc", "b", "anon"]
+    vals = ["s", "bus0", "cat", "pref", "nc", "b", "anon", "dict"]
     o.required_cover = ["op_connect", "op_replace", "op_disconnect", "op_read", "final_ok_valid"] + ["replaced_" + v for v in vals] + ["replacing_" + v for v in vals]
     rnd = random.Random(seed)
     for i in rnd.sample(range(len(cases)), 2):
